@@ -94,7 +94,8 @@ fn random_mat3(rng: &mut Rng) -> Matrix3<f32> {
 
 fn check_scene(sc: &Scene, su: &Setup, rng: &mut Rng, st: &mut Stats) -> Option<(String, String, Value)> {
     let setup_json = json!({"width": su.w, "height": su.h, "tile_sizes": su.tiles, "world_to_model": format!("{:?}", su.mat),
-        "z": su.z, "pixel_perfect": su.pixel_perfect, "backend": if su.jit { "jit" } else { "vm" }, "threads": su.pool.map(|i| POOL_SIZES[i % POOL_SIZES.len()])});
+        "z": su.z, "pixel_perfect": su.pixel_perfect, "backend": if su.jit { "jit" } else { "vm" }, "threads": su.pool.map(|i| POOL_SIZES[i % POOL_SIZES.len()]),
+        "free_var_values_bits": sc.vars.iter().map(|(_, v)| v.to_bits()).collect::<Vec<_>>()});
     let r = guarded(|| if su.jit { run_render::<JitFunction>(sc, su) } else { run_render::<VmFunction>(sc, su) });
     let img = match r {
         Ok(Ok(Some(i))) => i,
@@ -288,6 +289,55 @@ impl Prop for C06 {
             }
             st.violation(case, sig, msg, json!({"detail": detail, "shape": pj, "check_seed": seed.to_string()}));
         }
+    }
+    fn replay_detail(&self, replay: &Value, st: &mut Stats) -> bool {
+        // shape and setup are taken from the file (independent of generators)
+        let d = &replay["detail"];
+        let setup = if d["detail"]["setup"].is_object() { &d["detail"]["setup"] } else { &d["detail"] };
+        let nums = |s: &str| -> Vec<f32> {
+            s.split(|c: char| c == '[' || c == ']' || c == ',' || c.is_whitespace()).filter(|t| !t.is_empty()).filter_map(|t| t.parse().ok()).collect()
+        };
+        let Some(ms) = setup["world_to_model"].as_str().map(nums) else { return false };
+        if ms.len() != 9 {
+            return false;
+        }
+        let (Some(w), Some(h), Some(tiles)) = (setup["width"].as_u64(), setup["height"].as_u64(), setup["tile_sizes"].as_array()) else { return false };
+        let su = Setup {
+            w: w as u32,
+            h: h as u32,
+            tiles: tiles.iter().filter_map(|t| t.as_u64().map(|t| t as usize)).collect(),
+            mat: Matrix3::from_column_slice(&ms),
+            z: setup["z"].as_f64().unwrap_or(0.0) as f32,
+            pixel_perfect: setup["pixel_perfect"].as_bool().unwrap_or(false),
+            jit: setup["backend"].as_str() == Some("jit"),
+            pool: setup["threads"].as_u64().and_then(|t| POOL_SIZES.iter().position(|s| *s as u64 == t)),
+        };
+        let built;
+        let sc = if let Some(name) = d["shape"]["model"].as_str() {
+            let Some(m) = models().iter().find(|m| m.name == name) else { return false };
+            Scene { ctx: &m.ctx, root: m.root, vars: vec![], desc: json!({"model": m.name}) }
+        } else {
+            let Some(p) = Prog::from_json(&d["shape"]) else { return false };
+            built = p.build();
+            let root = built_root(&p, &built);
+            let bits: Vec<u32> = setup["free_var_values_bits"].as_array().map(|a| a.iter().filter_map(|b| b.as_u64().map(|b| b as u32)).collect()).unwrap_or_default();
+            let free: Vec<Var> = built.vars.iter().skip(3).copied().collect();
+            if bits.len() != free.len() {
+                return false;
+            }
+            let vars: Vec<(Var, f32)> = free.into_iter().zip(bits).map(|(v, b)| (v, f32::from_bits(b))).collect();
+            Scene { ctx: &built.ctx, root, vars, desc: p.to_json() }
+        };
+        let seed = d["check_seed"].as_str().and_then(|s| s.parse::<u64>().ok()).unwrap_or(1);
+        // (large images are judged on a random sample of pixels)
+        for k in 0..8 {
+            let mut rng = Rng::new(seed ^ k);
+            if let Some((sig, msg, detail)) = check_scene(&sc, &su, &mut rng, st) {
+                st.violation(replay["case"].as_u64().unwrap_or(0), sig, msg, json!({"detail": detail, "shape": d["shape"]}));
+                break;
+            }
+        }
+        true
     }
     fn finish(&self, st: &mut Stats, _tier: Tier) {
         let r = st.get("renders").max(1);
